@@ -297,6 +297,11 @@ var errorPathTemplates = []struct {
 	{"try {\nprobe(cbv(func(v) {\nthrow \"in-cbv\"\n}, 1))\n} catch e {\nprobe(\"caught\")\n}", []string{vals.Encode("caught")}, ""},
 	{"func run() {\neachcb([1, 2], func(x) {\nif x == 1 {\nthrow \"first\"\n}\nprobe(x)\n})\nreturn \"completed\"\n}\nprobe(run())", []string{}, "*"},
 	// a host function that panics is a failing call whatever it panics with - an empty text, a defined string type, nil-like values
+	// a deferred host call that RETURNS an error value raises nothing: the invocation keeps its result
+	{"func f() {\ndefer reterr()\nreturn 1\n}\nprobe(f())", []string{vals.Encode("reterr"), vals.Encode(int64(1))}, ""},
+	{"func f() {\ndefer reterr2()\ndefer reterr()\nreturn \"kept\"\n}\ntry {\nprobe(f())\n} catch e {\nprobe(\"caught\")\n}", []string{vals.Encode("reterr"), vals.Encode("reterr2"), vals.Encode("kept")}, ""},
+	{"defer reterr()\nprobe(\"body\")", []string{vals.Encode("body"), vals.Encode("reterr")}, ""},
+	{"x = reterr()\nprobe(x != nil)\na, b = reterr2()\nprobe(a)", []string{vals.Encode("reterr"), vals.Encode(true), vals.Encode("reterr2"), vals.Encode(int64(3))}, ""},
 	{"panicwith(\"\")\nprobe(\"after\")", []string{}, "*"},
 	{"try {\npanicwith(\"\")\nprobe(\"after\")\n} catch e {\nprobe(\"caught\")\n}", []string{vals.Encode("caught")}, ""},
 	{"func f() {\ndefer probe(\"deferred\")\npanicwith(\"\")\nprobe(\"after\")\n}\ntry {\nf()\nprobe(\"after-call\")\n} catch e {\nprobe(\"caught\")\n}", []string{vals.Encode("deferred"), vals.Encode("caught")}, ""},
@@ -332,7 +337,7 @@ func streamErrors(o *Out, r *rand.Rand, n int, thorough bool) {
 			continue
 		}
 		res := runVM(stmt, -1, 3*time.Second)
-		if strings.Contains(c.src, "eachcb") || strings.Contains(c.src, "callcb0") || strings.Contains(c.src, "cbv") || strings.Contains(c.src, "panicwith") || strings.Contains(c.src, "panicctx") {
+		if strings.Contains(c.src, "eachcb") || strings.Contains(c.src, "callcb0") || strings.Contains(c.src, "cbv") || strings.Contains(c.src, "panicwith") || strings.Contains(c.src, "panicctx") || strings.Contains(c.src, "reterr") {
 			o.Sum.Evaluations++ // host callbacks are not part of the model: implementation-side oracle only
 		} else {
 			o.Case(fmt.Sprintf("(run %d _ %s)", modelFuel, astser.Prog(stmt)), res.line, c.src, true)
